@@ -141,7 +141,23 @@ pub fn run(repo: &str) -> Result<Value, String> {
     let viz: Vec<String> = gen_lits.into_iter().filter(|l| l.starts_with("dependency-graph")).collect();
     let tr = parse(&format!("{}/src/analysis/type_resolver.rs", repo))?;
     let (prim_lits, _) = lits_in(&tr, "map_to_target_primitive");
+    // decision tables: the string literals of the functions that decide what is a command, an injected parameter,
+    // a serde type, a selected file, an emit call (in source order; literals inside macros are not expressions)
+    let mut fn_lits: Vec<Value> = Vec::new();
+    for (file, func) in [
+        ("src/analysis/command_parser.rs", "is_tauri_parameter_type"),
+        ("src/analysis/command_parser.rs", "is_tauri_command"),
+        ("src/analysis/struct_parser.rs", "should_include"),
+        ("src/analysis/ast_cache.rs", "parse_and_cache_all_files"),
+        ("src/analysis/event_parser.rs", "handle_method_call"),
+        ("src/analysis/event_parser.rs", "extract_emit_event"),
+    ] {
+        let f = parse(&format!("{}/{}", repo, file))?;
+        let (l, _) = lits_in(&f, func);
+        fn_lits.push(json!({"fn": func, "lits": l}));
+    }
     Ok(json!({
+        "fn_literals": fn_lits,
         "hash_structs": st.found.iter().map(|(n, f)| json!({"name": n, "fields": f})).collect::<Vec<_>>(),
         "generated_patterns": patterns,
         "generated_literals": gsc.array_lits,
